@@ -258,5 +258,9 @@ func genC01(r *rng, n int) {
 			}
 			out.emit(102, f...)
 		}
+		genC01More(r, g, root, desc, val, buf, paths)
+		if vi < 2 {
+			genC01Deep(r)
+		}
 	}
 }
